@@ -316,11 +316,13 @@ func (c *codecV2) EncodeRequest(req *tikvrpc.Request) (*tikvrpc.Request, error) 
 	case tikvrpc.CmdCop:
 		r := *req.Cop()
 		r.Ranges = c.encodeCopRanges(r.Ranges)
+		r.VersionedRanges = c.encodeVersionedRanges(r.VersionedRanges)
 		r.Tasks = c.encodeStoreBatchTasks(r.Tasks)
 		req.Req = &r
 	case tikvrpc.CmdCopStream:
 		r := *req.Cop()
 		r.Ranges = c.encodeCopRanges(r.Ranges)
+		r.VersionedRanges = c.encodeVersionedRanges(r.VersionedRanges)
 		r.Tasks = c.encodeStoreBatchTasks(r.Tasks)
 		req.Req = &r
 	case tikvrpc.CmdMvccGetByKey:
@@ -669,6 +671,16 @@ func (c *codecV2) DecodeResponse(req *tikvrpc.Request, resp *tikvrpc.Response) (
 		if err != nil {
 			return nil, err
 		}
+		for _, batchResp := range r.BatchResponses {
+			batchResp.RegionError, err = c.decodeRegionError(batchResp.RegionError)
+			if err != nil {
+				return nil, err
+			}
+			batchResp.Locked, err = c.decodeLockInfo(batchResp.Locked)
+			if err != nil {
+				return nil, err
+			}
+		}
 	case tikvrpc.CmdCopStream:
 		return nil, errors.New("streaming coprocessor is not supported yet")
 	case tikvrpc.CmdBatchCop, tikvrpc.CmdMPPTask:
@@ -877,6 +889,21 @@ func (c *codecV2) encodeCopRanges(ranges []*coprocessor.KeyRange) []*coprocessor
 	return newRanges
 }
 
+func (c *codecV2) encodeVersionedRanges(ranges []*coprocessor.VersionedKeyRange) []*coprocessor.VersionedKeyRange {
+	if len(ranges) == 0 {
+		return ranges
+	}
+	newRanges := make([]*coprocessor.VersionedKeyRange, 0, len(ranges))
+	for _, r := range ranges {
+		nr := *r
+		if r.Range != nil {
+			nr.Range = c.encodeCopRange(r.Range)
+		}
+		newRanges = append(newRanges, &nr)
+	}
+	return newRanges
+}
+
 func (c *codecV2) decodeRegions(regions []*metapb.Region) ([]*metapb.Region, error) {
 	var err error
 	for _, region := range regions {
@@ -967,6 +994,7 @@ func (c *codecV2) encodeStoreBatchTasks(tasks []*coprocessor.StoreBatchTask) []*
 	for _, task := range tasks {
 		t := *task
 		t.Ranges = c.encodeCopRanges(t.Ranges)
+		t.VersionedRanges = c.encodeVersionedRanges(t.VersionedRanges)
 		encodedTasks = append(encodedTasks, &t)
 	}
 	return encodedTasks
